@@ -813,6 +813,15 @@ func generate(rn *runner, r *hx.Rng, thorough bool) {
 	for i := 0; i < nHost; i++ {
 		nestedHostile(rn, r)
 	}
+	// (e) sessions on shared library state (pool, type cache, reused Stream), results kept alive
+	nSess := 1500
+	if thorough {
+		nSess = 15000
+	}
+	rn.do("api er:a:R3,u64,bytes,S,str:L3,N73588229205,Baaaaaaaaaaaaaaaaaaaaaaaaaaaaaaaaaaaaaaaaaaaaaaaaaaaaaaaaaaaaaaaaaaaaaaaaaaaaaaaaaaaaaaaaaaaaaaaaaaaaaaaaaaaaaaaaaaaaaaaaaaaaaaaaaaaaaaaaaaaaaaaaaaaa,L2,B616c706861,B62657461;eb:R3,u64,bytes,S,str:L3,N7,B5555555555555555555555555555555555555555555555555555555555555555555555555555555555555555555555555555555555555555555555555555555555555555555555555555555555555555555555555555555555,L1,B78;dr:a;chk")
+	for i := 0; i < nSess; i++ {
+		rn.do(genApiSession(r))
+	}
 	// (d) typed
 	var tys []*Ty
 	for _, nt := range nodeTypes() {
